@@ -15,7 +15,9 @@ type ResourcePath = String;
 pub struct Observer<Endpoint: Display> {
     pub endpoint: Endpoint,
     pub token: Vec<u8>,
-    unacknowledged_messages: u8,
+    // Wider than the limit (u8) so that the count can exceed a limit of 255
+    // instead of overflowing.
+    unacknowledged_messages: u16,
     // The message id of the last update to be acknowledged
     message_id: Option<u16>,
 }
@@ -121,7 +123,8 @@ impl<Endpoint: Display + PartialEq + Clone> Subject<Endpoint> {
                 });
 
                 resource.observers.retain(|observer| {
-                    observer.unacknowledged_messages <= unacknowledged_limit
+                    observer.unacknowledged_messages
+                        <= u16::from(unacknowledged_limit)
                 });
             });
     }
